@@ -52,7 +52,8 @@ impl RouteSimilarityFunction {
     /// true if the ranking meets the similarity criteria
     pub fn is_similar(&self, similarity: f64) -> bool {
         match self {
-            RouteSimilarityFunction::AcceptAll => true,
+            // accept all: no route is ever too similar to another
+            RouteSimilarityFunction::AcceptAll => false,
             RouteSimilarityFunction::EdgeIdCosineSimilarity { threshold } => {
                 similarity >= *threshold
             }
